@@ -31,6 +31,9 @@ pub struct SqlReplay {
     pub allow_oom: bool,
     pub guards: Vec<String>,
     pub events: Vec<Event>,
+    /// C12: the same history is also run under each of these configurations
+    #[serde(default)]
+    pub alt_cfgs: Vec<Cfg>,
     #[serde(default)]
     pub violation: Option<Violation>,
     #[serde(default)]
@@ -48,7 +51,16 @@ pub fn gen_sql_case(prop: &str, verif_seed: u64, idx: u64) -> SqlReplay {
         Some(props::Engine::Crash) => "E2-crashsim",
         _ => "E1-sqlsim",
     };
-    SqlReplay { property: prop.into(), engine: engine.into(), seed, cfg, allow_oom: false, guards, events, violation: None, trace: vec![] }
+    let mut alt_cfgs = vec![];
+    let mut cfg = cfg;
+    if prop == "C12" {
+        // reference configuration, a small cache (evictions), and a random geometry
+        cfg = Cfg { page: 4096, cache: 10000, pool: 1, min_keys: 3, siblings: 2 };
+        let mut r2 = Rng::new(seed ^ 0xC12);
+        alt_cfgs.push(Cfg { page: *r2.pick(&[4096usize, 4096, 8192]), cache: r2.range(24, 36) as usize, pool: *r2.pick(&[1usize, 2]), min_keys: r2.range(3, 5) as usize, siblings: r2.range(1, 3) as usize });
+        alt_cfgs.push(Cfg { page: *r2.pick(&[8192usize, 16384, 32768, 65536]), cache: r2.range(40, 400) as usize, pool: *r2.pick(&[1usize, 4, 8]), min_keys: r2.range(3, 6) as usize, siblings: r2.range(1, 3) as usize });
+    }
+    SqlReplay { property: prop.into(), engine: engine.into(), seed, cfg, allow_oom: false, guards, events, alt_cfgs, violation: None, trace: vec![] }
 }
 
 /// Harness self-check: a generated history must not trip the guards it was generated under.
@@ -57,7 +69,69 @@ pub fn audit_generated(case: &SqlReplay) -> Option<(usize, String)> {
 }
 
 pub fn run_sql_case(case: &SqlReplay, idx: u64) -> RunResult {
+    if case.alt_cfgs.is_empty() {
+        return run_sql_case_one(case, idx);
+    }
+    // differential over configurations: same history, k databases
+    let mut total: Option<RunResult> = None;
+    let mut cfgs = vec![case.cfg];
+    cfgs.extend(case.alt_cfgs.iter().copied());
+    for (n, cfg) in cfgs.iter().enumerate() {
+        let mut c = case.clone();
+        c.cfg = *cfg;
+        c.alt_cfgs = vec![];
+        let dir = util::fresh_dir("c12");
+        axmosdb::verif::io::start(&dir);
+        let mut r = run_sql_case_in(&c, idx, &dir);
+        let log = axmosdb::verif::io::stop();
+        // eviction write-backs = page writes to the db file outside checkpoints (no Flush/Reopen/Vacuum in these histories)
+        let end = log.iter().position(|e| e.kind == axmosdb::verif::io::Kind::Mark && e.note == "history-end").unwrap_or(log.len());
+        let evict = log[..end].iter().filter(|e| e.kind == axmosdb::verif::io::Kind::Write && e.file != "axmos.log").count() as u64;
+        r.counters.insert(format!("cfg{n}_db_page_writes_before_close"), evict);
+        let _ = evict;
+        let ev = r.counters.get("cache_evictions").copied().unwrap_or(0);
+        r.counters.insert(format!("cfg{n}_cache_evictions"), ev);
+        if n > 0 && ev > 0 {
+            *r.counters.entry("configurations_that_evicted".into()).or_insert(0) += 1;
+        }
+        if let Some(v) = &mut r.violation {
+            v.detail = format!("configuration #{n} {:?}: {}", cfg, v.detail);
+            let mut rp = case.clone();
+            rp.violation = Some(v.clone());
+            r.replay = Some(serde_json::to_value(&rp).unwrap());
+            return r;
+        }
+        match &mut total {
+            None => total = Some(r),
+            Some(t) => {
+                if t.fingerprint != r.fingerprint {
+                    // same logical log expected under every configuration
+                    let v = Violation { oracle: "O-config".into(), event: 0, detail: format!("configuration #{n} {:?} produced a different logical event log than configuration #0", cfg) };
+                    let mut rp = case.clone();
+                    rp.violation = Some(v.clone());
+                    t.violation = Some(v);
+                    t.replay = Some(serde_json::to_value(&rp).unwrap());
+                    return total.unwrap();
+                }
+                for (k, v) in r.counters {
+                    if k.starts_with("cfg") || k == "configurations_that_evicted" {
+                        *t.counters.entry(k).or_insert(0) += v;
+                    }
+                }
+                t.steps += r.steps;
+            }
+        }
+    }
+    total.unwrap()
+}
+
+pub fn run_sql_case_one(case: &SqlReplay, idx: u64) -> RunResult {
     let dir = util::fresh_dir("e1");
+    run_sql_case_in(case, idx, &dir)
+}
+
+pub fn run_sql_case_in(case: &SqlReplay, idx: u64, dir: &std::path::Path) -> RunResult {
+    let dir = dir.to_path_buf();
     let mut res = RunResult { idx, seed: case.seed, violation: None, counters: BTreeMap::new(), fingerprint: 0, steps: case.events.len() as u64, replay: None, hazards: vec![] };
     match Sim::new(&dir, case.cfg) {
         Err(e) => {
@@ -66,6 +140,7 @@ pub fn run_sql_case(case: &SqlReplay, idx: u64) -> RunResult {
         Ok(mut sim) => {
             sim.allow_oom = case.allow_oom;
             res.violation = sim.run(&case.events);
+            axmosdb::verif::io::mark("history-end");
             let stats = sim.finish();
             res.counters = stats.counters;
             res.fingerprint = stats.fingerprint;
